@@ -5,5 +5,5 @@ From Coq Require Import String.
 From QSCGen Require Import G_pins.
 Open Scope string_scope.
 
-Lemma pin_determine_helicity_current : pin_determine_helicity = "0a95b8f42ab30027fb92cc253d8cd6b169d3d1971a78fc25f3511354bd92dafa".
+Lemma pin_determine_helicity_current : pin_determine_helicity = "78624516fb091faf0d01bb8c651d592bad9f90f02954e815cb41cee59ba6e4d1".
 Proof. reflexivity. Qed.
